@@ -404,8 +404,10 @@ class Charge:
             attrs={"units": convert_unit("pixel"), "long_name": "Column"},
         )
 
+        # Note: a copy is returned (like the other containers), the array of charges is
+        #       modified in place by 'add_charge_array'
         return xr.DataArray(
-            data_2d,
+            np.array(data_2d),
             name="charge",
             dims=["y", "x"],
             coords={"y": rows, "x": cols},
